@@ -437,7 +437,8 @@ where
         }
         let mut rng = rng_for(ctx.seed, &format!("C12/{}", S::NAME), i as u64);
         let npoly = range(&mut rng, 1, 3);
-        let inst: Instance<S> = match guarded(|| generic::instance::<S>(&mut rng, ctx.thorough, npoly)) {
+        // every third case: keys trimmed to the full degree of the parameters
+        let inst: Instance<S> = match guarded(|| if i % 3 == 2 { generic::instance_full::<S>(&mut rng, ctx.thorough, npoly) } else { generic::instance::<S>(&mut rng, ctx.thorough, npoly) }) {
             Ok(Ok(x)) => x,
             Ok(Err(e)) | Err(e) => {
                 ctx.rep.notes.push(format!("{}: instance generation failed ({}); not a C12 matter", id, e));
